@@ -17,6 +17,7 @@ import RosuModel.Model.StackingWire
 import RosuModel.Model.LifeWire
 import RosuModel.Model.FiniteWire
 import RosuModel.Model.PerfCalcWire
+import RosuModel.Model.OsuSkillWire
 import RosuModel.Model.SliderEventsWire
 import RosuModel.Model.ManiaPatternWire
 
@@ -73,6 +74,7 @@ def handle (line : String) : String :=
   | "GSQ" :: mode :: args => GenState.handleGSQ mode args
   | "C09" :: args => Finite.handleFinite args
   | "PP" :: args => PerfCalc.handlePP args
+  | "OSK" :: args => PerfCalc.handleOSK args
   | ["SLEV", st, sd, v, td, tot, sp] => SliderEvents.handleSLEV st sd v td tot sp
   | ["OSLD", v, sm, tr, sl] => SliderEvents.handleOSLD v sm tr sl
   | ["JUICE", v, sm, tr, objs] => SliderEvents.handleJUICE v sm tr objs
